@@ -231,6 +231,126 @@ func c19(c *Ctx) {
 		}
 		r.Floor("C19.Z3", 2)
 	}
+	// Z5b: the answering side reports its clock as it is: Status.CurrentTime is time.Now() itself (not rounded or
+	// otherwise transformed: the bound assumes the reported instant lies inside the request interval)
+	if hs := c.P.Func("api.(*HTTP).handleStatus"); hs != nil {
+		info := hs.Info()
+		n := 0
+		ast.Inspect(hs.Body(), func(nd ast.Node) bool {
+			cl, ok := nd.(*ast.CompositeLit)
+			if !ok {
+				return true
+			}
+			v := litField(cl, "CurrentTime")
+			if v == nil {
+				return true
+			}
+			n++
+			isNow := func(e ast.Expr) bool {
+				call, ok := ast.Unparen(e).(*ast.CallExpr)
+				if !ok {
+					return false
+				}
+				fn := astx.Callee(info, call)
+				return fn != nil && fn.FullName() == "time.Now"
+			}
+			okNow := isNow(v)
+			if !okNow {
+				if d := uniqueDef(info, hs.Node(), v); d != nil {
+					okNow = isNow(d)
+				}
+			}
+			r.Check(okNow, "C19.Z5", hs.Name(), "the reported time is the clock reading itself", c.P.Pos(v.Pos()), "CurrentTime: time.Now()",
+				"the node reports a transformed clock reading (rounded, truncated, cached): the reported instant can lie outside the interval in which the request was served, which the bound of the asking node assumes, so a clock that is off by more than the tolerance can measure below it")
+			return true
+		})
+		r.Check(n >= 1, "C19.Z5", hs.Name(), "status answer carries CurrentTime", c.P.Pos(hs.Node().Pos()), itoa(n), "handleStatus no longer reports CurrentTime: every peer looks unanswered and is ignored")
+	} else {
+		r.Break("anchor function api.(*HTTP).handleStatus not found in /repo")
+	}
+	// Z3d: every measurement taken is judged: in each exported entry point of the package, every local holding a single
+	// measurement (the join target's) is part of the slice handed to synchronizedWithNetwork on every path
+	if swn != nil {
+		resT := c.P.Named("timesafeguard", "timeResult")
+		for _, fi := range c.P.FuncsIn("timesafeguard") {
+			if fi.Body() == nil || fi.Obj == nil || !fi.Obj.Exported() {
+				continue
+			}
+			info := fi.Info()
+			g := c.Graph(fi)
+			calls := callsIn(fi, func(fn *types.Func, _ *ast.CallExpr) bool { return fn == swn.Obj })
+			if len(calls) == 0 {
+				continue
+			}
+			// single measurements: locals of type timeResult defined from a call
+			var singles []types.Object
+			ast.Inspect(fi.Body(), func(n ast.Node) bool {
+				as, ok := n.(*ast.AssignStmt)
+				if !ok || as.Tok != token.DEFINE {
+					return true
+				}
+				for _, l := range as.Lhs {
+					if id, ok := l.(*ast.Ident); ok {
+						if o := info.Defs[id]; o != nil && resT != nil && types.Identical(o.Type(), resT) {
+							singles = append(singles, o)
+						}
+					}
+				}
+				return true
+			})
+			for _, call := range calls {
+				if len(call.Args) != 1 {
+					continue
+				}
+				aid, ok := ast.Unparen(call.Args[0]).(*ast.Ident)
+				if !ok {
+					continue
+				}
+				slice := astx.Obj(info, aid)
+				cv := g.VertexOf(call)
+				for _, single := range singles {
+					// every definition of the slice that reaches the call mentions the single measurement, directly or
+					// by extending a value that did (append(slice, …) of an earlier definition is judged at that definition)
+					okAll := true
+					var defVs []int
+					for _, v := range g.Nodes() {
+						if as, ok := v.Node.(*ast.AssignStmt); ok {
+							for _, l := range as.Lhs {
+								if id, ok := l.(*ast.Ident); ok && astx.Obj(info, id) == slice {
+									defVs = append(defVs, v.ID)
+								}
+							}
+						}
+					}
+					isDef := func(x int) bool {
+						for _, d := range defVs {
+							if d == x {
+								return true
+							}
+						}
+						return false
+					}
+					for _, d := range defVs {
+						// does this definition reach the call without being overwritten?
+						reaches := false
+						for _, e := range g.V[d].Succ {
+							if e.To == cv || g.Reach(e.To, func(x int) bool { return isDef(x) }, nil)[cv] {
+								reaches = true
+							}
+						}
+						if !reaches {
+							continue
+						}
+						if !astx.Mentions(info, g.V[d].Node, single) {
+							okAll = false
+						}
+					}
+					r.Check(okAll && len(defVs) > 0, "C19.Z3", fi.Name(), "the measurement "+single.Name()+" is among those judged", c.P.Pos(call.Pos()), "every definition of "+slice.Name()+" reaching synchronizedWithNetwork contains it",
+						"a measurement that was taken (the node being joined) does not reach the comparison on some path: its clock is never evaluated and a skewed join target is accepted")
+				}
+			}
+		}
+	}
 	// Z3b: collectTime stores a measurement only on the nil-error edge
 	{
 		info := ct.Info()
